@@ -24,8 +24,9 @@ def run(tier, replay):
     work = V.scratch()
     bins = V.build(["dbt"], work)
     nontrivial = set()
-    modes = [("oplog", c.seed, []), ("clean", c.seed, []), ("kth", c.seed, []), ("ttl", c.seed, [])]   # ttl: the delete events of real expiry passes
-    dbtrace.CLASSES["C08"] = dbtrace.CLASSES["C08"] + ("expire:events", "expire:foreign-event", "expire:event-ids", "expire:abandoned-pass")
+    modes = [("oplog", c.seed, []), ("clean", c.seed, []), ("kth", c.seed, []), ("ttl", c.seed, []), ("parked", c.seed, [])]   # ttl: the delete events of real expiry passes
+    dbtrace.CLASSES["C08"] = dbtrace.CLASSES["C08"] + ("expire:events", "expire:foreign-event", "expire:event-ids", "expire:abandoned-pass",
+                                                     "visibility:writer-queued")
     for i in range(1 if tier == "quick" else 6):
         modes.append(("hist", c.seed * 1000 + 300 + i, [60, 30] if tier == "quick" else [250, 40]))
     dbtrace.run_modes(c, "C08", bins, work, modes, nontrivial)
